@@ -44,8 +44,8 @@ Definition locale_module (n : pstr) : locale := match find_locale n with Some L 
      .microseconds, as VALUES (where they come from is C06/C14's matter);
    * parts: a list of str (lpstr); `parts.append(x)` on that fresh, never aliased local = lp_append; `if not parts` = negb lp_truth;
    * the key f"units.{unit}.{cls}" is the pair (unit, cls) (ukey); loaded_locale.translation(key) = loc_translation: Locale.translation prefixes
-     "translations." and Locale.get splits the key at the dots and walks the data (Model/LocaleBase.v lookup) — that split is HAND-MODELLED here
-     (the unit names and the plural classes contain no dot); Locale._key_cache is not modelled;
+     "translations." and Locale.get splits the key at the dots and walks the data (Model/LocaleBase.v lookup) — a primitive here, PROVED to be the
+     translated Locale.translation / Locale.get (with _key_cache threaded) on every key in_words builds: Props/C18.v in_words_translation_is_code;
    * loaded_locale.plural(n) = the translated Locale.plural on the data of the loaded object (Gen/HumanizeGlue.v loc_plural);
    * translation.format(x) uses x only through str(x) (the shipped templates carry bare {} / {0} fields; LocaleBase.node_format);
    * f"{abs(us) / 1e6:.2f}" = DiffFormat.fmt2 (binary64 division then rounding to hundredths, hand model);
@@ -62,7 +62,44 @@ Definition opt_str_or (o : option pstr) (d : pstr) : pstr := match o with Some (
 
 (* ------------------------------------------------------------------ Locale.plural / ordinal / ordinalize (on the generated locale record)
    self._data["plural"] / ["ordinal"] are the generated expression ASTs (LocaleBase l_plural / l_ordinal), applied by lplural / lordinal;
-   self.get(f"custom.ordinal.{c}") = loc_get_custom_ordinal (Locale.get's split at the dots HAND-MODELLED, as for loc_translation);
+   self.get(f"custom.ordinal.{c}") = loc_get_custom_ordinal (proved to be the translated Locale.get on that key: ordinalize_get_is_code);
    str(x) of a looked-up value = LocaleBase.node_str; + on str = pcat *)
 Definition loc_get_custom_ordinal (L : locale) (c : string) : result (option node) := lget L ["custom"; "ordinal"; c]%string.
 Definition pcat (a b : pstr) : pstr := a ++ b.
+
+(* ------------------------------------------------------------------ Locale.get / Locale.translation (translated in Gen/HumanizeGlue.v)
+   * self._data = the node tree of the generated locale record (LocaleBase l_data); d[k] with a str k = node_getitem: the entry of a dict whose key is
+     that str (KeyError when absent; int keys never equal a str), TypeError on a str / an int (subscripting those with a str);
+   * key.split(".") = psplit 46 key (never empty: "".split(".") = [""]); parts[0] / parts[1:] = lp_head / lp_tail;
+   * the instance attribute self._key_cache (a dict str -> Any) is an explicit association list gkcache threaded through get / translation
+     (k in c = kc_has, c[k] = kc_get, c[k] = v = kc_set); nothing is assumed about its contents: transparency is a theorem
+     (Proofs/HumanizeGlueFacts.v kc_ok); a cached value is None (the default) or a node;
+   * f"translations.{key}" = the code points of "translations." followed by key. *)
+Definition gkcache : Type := list (pstr * option node).
+Fixpoint kc_get_opt (c : gkcache) (k : pstr) : option (option node) :=
+  match c with [] => None | (k', v) :: r => if pstr_eqb k' k then Some v else kc_get_opt r k end.
+Definition kc_has (c : gkcache) (k : pstr) : bool := match kc_get_opt c k with Some _ => true | None => false end.
+Definition kc_get (c : gkcache) (k : pstr) : option node := match kc_get_opt c k with Some v => v | None => None end.   (* KeyError not modelled: guarded by `in` *)
+Definition kc_set (c : gkcache) (k : pstr) (v : option node) : gkcache := (k, v) :: c.
+
+Fixpoint psplit (sep : Z) (s : pstr) : lpstr :=
+  match s with
+  | [] => [[]]
+  | c :: r => if c =? sep then [] :: psplit sep r
+              else match psplit sep r with h :: t => (c :: h) :: t | [] => [[c]] end
+  end.
+Definition lp_head (l : lpstr) : pstr := match l with h :: _ => h | [] => [] end.     (* IndexError not modelled: split never returns [] *)
+Definition lp_tail (l : lpstr) : lpstr := match l with _ :: t => t | [] => [] end.
+
+Fixpoint assoc_p (k : pstr) (l : list (key * node)) : option node :=
+  match l with
+  | [] => None
+  | (KS s, v) :: r => if pstr_eqb (pstr_of_string s) k then Some v else assoc_p k r
+  | (KI _, _) :: r => assoc_p k r
+  end.
+Definition node_getitem (n : node) (k : pstr) : result node :=
+  match n with
+  | NDict l => match assoc_p k l with Some v => Ok v | None => Raise E_KeyError end
+  | _ => Raise E_TypeError
+  end.
+Definition s_translations_dot : pstr := pstr_of_string "translations.".
